@@ -56,7 +56,7 @@ def _props(obj):
 
 
 OPS = ['ads_up:A1', 'ads_ow:A1b', 'ads_del:A1', 'ads_up:A2', 'ads_del:A2', 'mat_up:M1', 'mat_ow:M1b', 'mat_del:M1', 'mat_up:M2', 'mat_del:M2',
-       'iso_up:I1', 'iso_up_strict:I1', 'iso_del:I1', 'iso_up:I2', 'iso_del:I2', 'iso_up:I3', 'iso_del:I3',
+       'iso_up:I1', 'iso_up_strict:I1', 'iso_up_matonly:I1', 'iso_up_adsonly:I1', 'iso_del:I1', 'iso_up:I2', 'iso_del:I2', 'iso_up:I3', 'iso_del:I3',
        'atype_up:colour', 'atype_del:colour', 'mtype_del:batch']
 
 
@@ -97,13 +97,15 @@ class Model:
             if a.name not in n.mats or any(v[1] == a.name for v in n.isos.values()):
                 return 'refused'
             del n.mats[a.name]
-        elif kind in ('iso_up', 'iso_up_strict'):
+        elif kind in ('iso_up', 'iso_up_strict', 'iso_up_matonly', 'iso_up_adsonly'):
             i = U[arg]
             mat, ads = str(i.material), str(i.adsorbate)
-            if kind == 'iso_up':
+            # auto-insertion is part of the same operation: if the upload is refused, the auto-inserted item is not stored either
+            if kind in ('iso_up', 'iso_up_matonly'):
                 if mat not in n.mats:
                     n.mats[mat] = _props(i.material)
                     n.mtypes |= set(n.mats[mat])
+            if kind in ('iso_up', 'iso_up_adsonly'):
                 if ads not in n.ads:
                     n.ads[ads] = _props(i.adsorbate)
                     n.atypes |= set(n.ads[ads])
@@ -150,6 +152,10 @@ def _do(S, op, U, db):
         S.isotherm_to_db(U[arg], **kw)
     elif kind == 'iso_up_strict':
         S.isotherm_to_db(U[arg], autoinsert_material=False, autoinsert_adsorbate=False, **kw)
+    elif kind == 'iso_up_matonly':
+        S.isotherm_to_db(U[arg], autoinsert_material=True, autoinsert_adsorbate=False, **kw)
+    elif kind == 'iso_up_adsonly':
+        S.isotherm_to_db(U[arg], autoinsert_material=False, autoinsert_adsorbate=True, **kw)
     elif kind == 'iso_del':
         S.isotherm_delete_db(U[arg], **kw)
     elif kind == 'atype_up':
@@ -233,7 +239,7 @@ def histories(seed, thorough):
     two = [[(0, 'mat_up:M1'), (1, 'iso_up:I1')], [(0, 'ads_up:A1'), (1, 'iso_up:I1')], [(0, 'iso_up:I1'), (1, 'iso_up:I1')],
            [(0, 'iso_up:I1'), (1, 'ads_up:A1'), (1, 'mat_up:M1'), (1, 'iso_up_strict:I1')], [(0, 'mat_up:M1'), (1, 'mat_up:M1'), (0, 'mat_del:M1'), (1, 'iso_up:I1')]]
     for _ in range(200 if thorough else 20):
-        two.append([(rnd.choice((0, 1)), rnd.choice(OPS)) for _ in range(rnd.choice((3, 4, 5)))])
+        two.append([(rnd.choice((0, 1)), rnd.choice([o for o in OPS if 'only' not in o])) for _ in range(rnd.choice((3, 4, 5)))])
     return hs, two
 
 
